@@ -9,19 +9,19 @@ Local Open Scope Z_scope.
 
 (* callback table (ICall n): 0=myth_entry_point_1, 1=myth_entry_point_2, 2=myth_startpoint_init_ex_1, 3=myth_startpoint_exit_ex_1, 4=myth_create_1, 5=myth_join_2, 6=myth_join_3, 7=myth_yield_ex_1, 8=myth_block_on_queue_cb, 9=myth_block_on_stack_cb, 10=myth_uncond_wait_cb *)
 
-(* myth_log.c -O0  src/myth_sched_func.h:1270 *)
+(* myth_log.c -O0  src/myth_sched_func.h:1273 *)
 Definition site_0 : site :=
   mkSite 0
     [ILoadRsp RAX; ICall 0; IPop RAX; IJmp RAX]
     [RAX; RCX; RDX; RSI; RDI] [RAX; RDI; RSI; RDX] [R8; R9; R10; R11] true true.
 
-(* myth_log.c -O0  src/myth_sched_func.h:1313 *)
+(* myth_log.c -O0  src/myth_sched_func.h:1316 *)
 Definition site_1 : site :=
   mkSite 1
     [ILoadRsp RAX; ICall 1; IPop RAX; IJmp RAX]
     [RAX; RCX; RDX; RSI; RDI] [RAX; RDI; RSI; RDX] [R8; R9; R10; R11] true true.
 
-(* myth_log.c -O0  src/myth_worker_func.h:605 *)
+(* myth_log.c -O0  src/myth_worker_func.h:606 *)
 Definition site_2 : site :=
   mkSite 2
     [ISubRsp 128; IPush RBP; IPush RBX; IPush R12; IPush R13; IPush R14; IPush R15; ISubRsp 8; ILea 1 RBP; IPush RBP; IStoreRsp RAX; ILoadRsp RDX; IPop RAX; IJmp RAX; ILabel 1; IAddRsp 8; IPop R15; IPop R14; IPop R13; IPop R12; IPop RBX; IPop RBP; IAddRsp 128]
@@ -57,7 +57,7 @@ Definition site_7 : site :=
     [ISubRsp 128; IPush RBP; IPush RBX; IPush R12; IPush R13; IPush R14; IPush R15; ISubRsp 8; ILea 1 RBP; IPush RBP; IStoreRsp RAX; ILoadRsp RCX; ICall 6; IPop RAX; IJmp RAX; ILabel 1; IAddRsp 8; IPop R15; IPop R14; IPop R13; IPop R12; IPop RBX; IPop RBP; IAddRsp 128]
     [RAX; RCX; RDX; RSI; RDI] [RAX; RCX; RDI; RSI; RDX] [R8; R9; R10; R11] true true.
 
-(* myth_if_native.c -O0  src/myth_sched_func.h:1047 *)
+(* myth_if_native.c -O0  src/myth_sched_func.h:1050 *)
 Definition site_8 : site :=
   mkSite 8
     [ISubRsp 128; IPush RBP; IPush RBX; IPush R12; IPush R13; IPush R14; IPush R15; ISubRsp 8; ILea 1 RBP; IPush RBP; IStoreRsp RAX; ILoadRsp RCX; ICall 7; IPop RAX; IJmp RAX; ILabel 1; IAddRsp 8; IPop R15; IPop R14; IPop R13; IPop R12; IPop RBX; IPop RBP; IAddRsp 128]
